@@ -257,21 +257,25 @@ static std::string listRange(It b, It e, std::size_t cap) {
 template <unsigned D, unsigned K>
 struct BoundsQ {
     static void run(const Trie<D>& trie, const std::vector<Tup<D>>& probes, std::size_t cap, typename Trie<D>::op_context& ctxt,
-            std::vector<std::string>& out) {
+            bool hints, std::vector<std::string>& out) {
         std::set<std::vector<RamDomain>> seen;
         for (auto& p : probes) {
             std::vector<RamDomain> pre(p.begin(), p.begin() + K);
             if (!seen.insert(pre).second) continue;
-            auto r = trie.template getBoundaries<K>(p);
-            out.push_back("bounds " + std::to_string(K) + " " + str<D>(p) + " " + listRange<D>(r.begin(), r.end(), cap));
-            auto r2 = trie.template getBoundaries<K>(p, ctxt);  // with a context shared by consecutive queries
-            out.push_back("bounds " + std::to_string(K) + " " + str<D>(p) + " " + listRange<D>(r2.begin(), r2.end(), cap));
+            if (!hints) {
+                auto r = trie.template getBoundaries<K>(p);
+                out.push_back("bounds " + std::to_string(K) + " " + str<D>(p) + " " + listRange<D>(r.begin(), r.end(), cap));
+            } else {
+                auto r2 = trie.template getBoundaries<K>(p, ctxt);  // with a context shared by consecutive queries
+                out.push_back("bounds " + std::to_string(K) + " " + str<D>(p) + " " + listRange<D>(r2.begin(), r2.end(), cap));
+            }
         }
-        if constexpr (K > 0) BoundsQ<D, K - 1>::run(trie, probes, cap, ctxt, out);
+        if constexpr (K > 0) BoundsQ<D, K - 1>::run(trie, probes, cap, ctxt, hints, out);
     }
 };
 template <unsigned D>
-static void queries(const Trie<D>& trie, const std::vector<std::vector<Tup<D>>>& progs, std::vector<std::string>& out) {
+static void queries(const Trie<D>& trie, const std::vector<std::vector<Tup<D>>>& progs, bool hints, std::size_t maxProbes,
+        std::vector<std::string>& out) {
     std::vector<Tup<D>> all;
     std::set<RamDomain> keys;
     for (auto& p : progs)
@@ -286,7 +290,7 @@ static void queries(const Trie<D>& trie, const std::vector<std::vector<Tup<D>>>&
     std::vector<Tup<D>> probes;
     std::set<Tup<D>> seen;
     auto add = [&](const Tup<D>& t) {
-        if (probes.size() < 48 && seen.insert(t).second) probes.push_back(t);
+        if (probes.size() < maxProbes && seen.insert(t).second) probes.push_back(t);
     };
     for (auto& t : all) add(t);
     for (auto& t : all)
@@ -308,18 +312,21 @@ static void queries(const Trie<D>& trie, const std::vector<std::vector<Tup<D>>>&
     if (all.empty()) add(Tup<D>{});
     typename Trie<D>::op_context cctx, fctx, bctx;
     for (auto& p : probes) {
-        out.push_back("contains " + str<D>(p) + " " + std::to_string((int)trie.contains(p)));
-        out.push_back("contains " + str<D>(p) + " " + std::to_string((int)trie.contains(p, cctx)));
-        auto f = trie.find(p);
-        out.push_back("find " + str<D>(p) + " " + (f == trie.end() ? "-" : str<D>(*f)));
-        auto f2 = trie.find(p, fctx);
-        out.push_back("find " + str<D>(p) + " " + (f2 == trie.end() ? "-" : str<D>(*f2)));
+        if (!hints) {
+            out.push_back("contains " + str<D>(p) + " " + std::to_string((int)trie.contains(p)));
+            auto f = trie.find(p);
+            out.push_back("find " + str<D>(p) + " " + (f == trie.end() ? "-" : str<D>(*f)));
+        } else {  // with contexts shared by consecutive queries
+            out.push_back("contains " + str<D>(p) + " " + std::to_string((int)trie.contains(p, cctx)));
+            auto f2 = trie.find(p, fctx);
+            out.push_back("find " + str<D>(p) + " " + (f2 == trie.end() ? "-" : str<D>(*f2)));
+        }
         auto lb = trie.lower_bound(p);
         out.push_back("lower " + str<D>(p) + " " + (lb == trie.end() ? "-" : str<D>(*lb)));
         auto ub = trie.upper_bound(p);
         out.push_back("upper " + str<D>(p) + " " + (ub == trie.end() ? "-" : str<D>(*ub)));
     }
-    BoundsQ<D, D>::run(trie, probes, cap, bctx, out);
+    BoundsQ<D, D>::run(trie, probes, cap, bctx, hints, out);
     for (unsigned chunks : {1u, 2u, 3u, 7u, 500u}) {
         std::string s;
         auto parts = trie.partition(chunks);
@@ -389,7 +396,7 @@ struct TrieJob {
         for (auto& x : th) x.join();
         for (auto& e : events) std::printf("V %s\n", e.c_str());
         std::vector<std::string> q;
-        queries<D>(trie, progs, q);
+        queries<D>(trie, progs, hints, 16, q);
         for (auto& e : q) std::printf("V %s\n", e.c_str());
         std::printf("E\n");
         lastSteps = executed;
@@ -429,7 +436,7 @@ struct TrieJob {
         std::printf("J %ld %ld\nD stress\n", job, gLine);
         for (auto& e : allEv) std::printf("V %s\n", e.e.c_str());
         std::vector<std::string> q;
-        queries<D>(trie, progs, q);
+        queries<D>(trie, progs, hints, 40, q);
         for (auto& e : q) std::printf("V %s\n", e.c_str());
         std::printf("E\n");
     }
